@@ -244,6 +244,7 @@ def run_one(check, case, cls, idx):
 def shard_main(check, tier, shard, nshards, seed, outpath, findings):
     warnings.simplefilter('ignore')
     faulthandler.enable()
+    signal.signal(signal.SIGVTALRM, _alarm)      # the per-case CPU budget raises CaseTimeout in the case, it does not kill the shard
     check.tier = tier
     check.workdir = tempfile.mkdtemp(prefix='verif_%s_' % check.ID)
     t0 = time.time()
@@ -548,6 +549,7 @@ def replay_main(check, path):
         rec = json.load(f)
     check.tier = 'quick'
     check.workdir = tempfile.mkdtemp(prefix='verif_%s_' % check.ID)
+    signal.signal(signal.SIGVTALRM, _alarm)
     try:
         check.setup()
         canary_setup(check)
